@@ -86,9 +86,12 @@ def body():
     import warnings
 
     warnings.simplefilter("ignore")
+    TOL0 = ra.TOL
     for n, ob in enumerate(obs):
         t = ob["term"]
         label = show(t)
+        # terms that contain the single-precision atom are compared to single-precision accuracy
+        ra.TOL = 2e-5 if "S11" in label else TOL0
         shp = shape_of(t)
         counts[ob["verdict"]] += 1
         chk.count(label, ob["depth"] >= 1)
@@ -181,6 +184,7 @@ def body():
             chk.violation("accept:%s" % shp, "documented combination %s fails with %s: %s" % (label, type(exc).__name__, str(exc)[:200]), {"term": t})
         if n % 4001 == 0:
             chk.sample({"term": label, "verdict": ob["verdict"], "type": ob["type"], "den": ob["den"]})
+    ra.TOL = TOL0
     # ---- life cycle of grid functions (GfLife.tla): representation changes and what each call returns, over call sequences
     gl = common.run_tlc("GfLife", "GfLife.cfg", timeout=1800)
     chk.add_tlc("GfLife exhaustive (depth 3, 3 slots)", gl)
